@@ -188,9 +188,9 @@ func solveAll(ts []*fnTrans, outDir string, timeout time.Duration, cross bool, w
 		go func() {
 			defer wg.Done()
 			for j := range jch {
-				dir := filepath.Join(outDir, "vc", sanitize(j.t.name))
+				dir := filepath.Join(outDir, "vc", fileSafe(j.t.name))
 				os.MkdirAll(dir, 0o755)
-				file := filepath.Join(dir, sanitize(strings.TrimPrefix(j.o.Name, j.t.name+"/"))+".smt2")
+				file := filepath.Join(dir, fileSafe(strings.TrimPrefix(j.o.Name, j.t.name+"/"))+".smt2")
 				text := j.t.vc(j.o, false)
 				os.WriteFile(file, []byte(text), 0o644)
 				weakFile := ""
